@@ -64,6 +64,11 @@ def run(repo: Repo) -> Result:
                 continue
             res.add("C24-LOCK", SAFE, f"not-overridden:{name}", f"ThreadSafeLRUCache inherits LRUCache.{name}, which touches the shared map without the lock" + (" and hands out a lazy view of it" if is_lazy else ""), safe.file, safe.node.lineno)
             continue
+        # (a private helper that takes the lock for its callers — `self._snapshot(super().keys)` — is
+        #  inlined first: sa/normalize.py)
+        from ..normalize import nfunc
+
+        o = nfunc(repo, o, aliases=False)
         # every super().<m>() / self._cache access must be inside `with self._lock`
         locked_nodes = set()
         for w in ast.walk(o.node):
@@ -116,8 +121,17 @@ def run(repo: Repo) -> Result:
     for cq in (BASE, SAFE):
         k = repo.cls(cq)
         for name, m in k.methods.items():
+            pm_ = {}
+            for n_ in ast.walk(m.node):
+                for ch_ in ast.iter_child_nodes(n_):
+                    pm_[id(ch_)] = n_
             for c in calls(m.node):
                 if callee_name(c) in ("get", "pop", "setdefault") and isinstance(c.func, ast.Attribute) and attr_chain(call_recv(c)) == ["self", "_cache"] and (callee_name(c) != "pop" or len(c.args) > 1):
+                    # handing the dict's own answer straight back (`return self._cache.get(key, default)`)
+                    # is presence by key; the hazard is *testing* the value (is None / truthiness)
+                    par = pm_.get(id(c))
+                    if isinstance(par, ast.Return) and callee_name(c) == "get" and name not in ("get", "__getitem__", "__contains__"):
+                        continue
                     res.add("C24-PRESENCE", m.qual, f"_cache.{callee_name(c)}", f"{m.qual} reads the map with `{text(c)[:50]}`: presence is then decided from the stored value, so a cached None is reported missing (and the read does not refresh recency)", m.file, c.lineno)
         g = k.methods.get("get")
         if g is None:
@@ -140,25 +154,45 @@ def run(repo: Repo) -> Result:
     res.ob("order:getitem")
     if "self._cache.move_to_end(key)" not in text(gi.node) or "self._cache[key]" not in text(gi.node):
         res.add("C24-ORDER", gi.qual, "move_to_end", "LRUCache.__getitem__ must read self._cache[key] and move the key to the recent end", gi.file, gi.line)
-    si = base.methods["__setitem__"]
+    import copy as _copy
+
+    from ..guards import canon as _canon
+    from ..guards import conditions as _conditions
+    from ..normalize import NFunc, propagate_aliases
+
+    # `cache = self._cache` aliases propagated; conditions read as path conditions (sa/guards.py)
+    si = NFunc(base.methods["__setitem__"], propagate_aliases(_copy.deepcopy(base.methods["__setitem__"].node)))
     res.ob("order:setitem", 3)
-    s = text(si.node)
     ev = [c for c in calls(si.node) if callee_name(c) == "popitem"]
     if len(ev) != 1 or not any(k.arg == "last" and isinstance(k.value, ast.Constant) and k.value.value is False for k in ev[0].keywords):
         res.add("C24-ORDER", si.qual, "evict-oldest", "LRUCache.__setitem__ must evict with popitem(last=False) (the least recently used end)", si.file, si.line)
-    guard = [n for n in ast.walk(si.node) if isinstance(n, ast.If) and any(callee_name(c) == "popitem" for c in calls(n))]
-    if not guard or text(guard[0].test) != "len(self._cache) >= self.capacity":
-        res.add("C24-ORDER", si.qual, f"capacity-test:{text(guard[0].test) if guard else None}", "eviction must happen iff len(self._cache) >= self.capacity before inserting a new key", si.file, si.line)
-    # eviction only for new keys: inside `except KeyError` of move_to_end
-    ok = False
+    cond_of = {}
+    for st, cs in _conditions(si.node):
+        if not hasattr(st, "body"):
+            cond_of[id(st)] = [_canon(c) for c in cs]
+    # statements inside `except KeyError:` of a try whose body is `self._cache.move_to_end(key)`
+    # run exactly when the key is new
+    in_new_key_handler = set()
     for n in ast.walk(si.node):
-        if isinstance(n, ast.Try) and any(callee_name(c) == "move_to_end" for st in n.body for c in calls(st)):
+        if isinstance(n, ast.Try) and any(callee_name(c) == "move_to_end" for b_ in n.body for c in calls(b_)):
             for h in n.handlers:
-                if "KeyError" in text(h.type) and any(callee_name(c) == "popitem" for c in calls(h)):
-                    ok = True
-    if not ok:
+                if h.type is not None and text(h.type) == "KeyError":
+                    in_new_key_handler |= {id(x) for x in ast.walk(h)}
+    ev_stmt = next((st for st, _ in _conditions(si.node) if not hasattr(st, "body") and ev and any(c is ev[0] for c in calls(st))), None)
+    cs = cond_of.get(id(ev_stmt), []) if ev_stmt is not None else []
+    cap = "len(self._cache) >= self.capacity"
+    new_key = ("key not in self._cache" in cs) or (ev_stmt is not None and id(ev_stmt) in in_new_key_handler)
+    if ev_stmt is None or cap not in cs:
+        res.add("C24-ORDER", si.qual, f"capacity-test:{cs}", "eviction must happen iff len(self._cache) >= self.capacity before inserting a new key", si.file, si.line)
+    elif [c for c in cs if c not in (cap, "key not in self._cache")]:
+        res.add("C24-ORDER", si.qual, f"capacity-test:{cs}", f"eviction has extra conditions {[c for c in cs if c not in (cap, 'key not in self._cache')]}", si.file, si.line)
+    if not new_key:
         res.add("C24-ORDER", si.qual, "evict-only-new", "an existing key must be moved to the recent end (no eviction); only a new key may evict", si.file, si.line)
-    if not isinstance(si.node.body[-1], ast.Assign) or text(si.node.body[-1]) != "self._cache[key] = value":
+    mv = [st for st, _ in _conditions(si.node) if not hasattr(st, "body") and any(callee_name(c) == "move_to_end" and c.args and is_name(c.args[0], "key") for c in calls(st))]
+    if not mv or not all((cond_of.get(id(st), []) in ([], ["key in self._cache"])) for st in mv):
+        res.add("C24-ORDER", si.qual, "evict-only-new", "an existing key must be moved to the recent end with move_to_end(key)", si.file, si.line)
+    last = si.node.body[-1]
+    if not isinstance(last, ast.Assign) or text(last) != "self._cache[key] = value":
         res.add("C24-ORDER", si.qual, "store", "__setitem__ must end with self._cache[key] = value", si.file, si.line)
     for m, want in (("__iter__", "reversed(self._cache)"), ("keys", "reversed(self._cache.keys())"), ("values", "reversed(self._cache.values())"), ("items", "reversed(self._cache.items())")):
         f = base.methods[m]
